@@ -115,6 +115,22 @@ def c01Holds (cfg : Config) (req : Req) (o : Outcome) : Bool :=
     cfg.services.any (fun svc => svc.id == s && svc.built.any (fun rt => rt.id == r && admitsRequest E cfg.router rt req))
   | _ => true
 
+/-- **identities identify** (hypothesis of the `…_unique` theorems of C01/C03/C04; reported by the
+    driver inside `WF`): WebService ids are pairwise distinct and route ids are pairwise distinct
+    within each WebService.  `c01Holds`, `c03Holds`, `c04Holds` name the route that ran by the pair
+    (service id, route id) only; on a table with this property exactly one declaration carries
+    that pair (`Spec.routeOfIds`), so the predicates speak about the route that ran and no other.
+    (= `serviceIdsDistinct && routeIdsDistinct` of Spec/Common.lean: `Spec.idsDistinct_eq`.) -/
+def idsDistinct (cfg : Config) : Bool :=
+  decide ((cfg.services.map (·.id)).Nodup) && cfg.services.all (fun s => decide ((s.routes.map (·.id)).Nodup))
+
+/-- the declaration an identity (service id, route id) stands for: the first WebService with
+    that id and the first of its built routes with that id (under `idsDistinct`: the only ones) -/
+def routeOfIds (cfg : Config) (s r : Nat) : Option (Service × Route) :=
+  match cfg.services.find? (fun svc => svc.id == s) with
+  | some svc => (svc.built.find? (fun rt => rt.id == r)).map (fun rt => (svc, rt))
+  | none => none
+
 end Spec
 
 /-- configuration well-formedness for the routing theorems: every route path reads as a
